@@ -13,7 +13,8 @@ from vpc.core import cN, cbool, clist, copt, cstr
 IMPORTS = "Require Import V.model.SvcLifecycle."
 THEOREMS = ["running_has_live_pid", "refresh_syncs", "stop_leaves_nothing", "remove_leaves_nothing",
             "removed_stays_removed", "failed_op_never_newly_running", "port_conflict_refused",
-            "names_and_dirs_unique", "save_load_identity", "lifecycle_invariants", "lifecycle_constants", "ok_clears_record"]
+            "names_and_dirs_unique", "save_load_identity", "lifecycle_invariants", "lifecycle_constants", "ok_clears_record",
+            "add_saves_every_recorded_service"]
 RULE = ("histories = lists of add / start / stop / remove / upgrade / refresh / kill over the services added so "
         "far, each with a fault plan (set of call indices that fail); quick: every history of <= 3 operations "
         "over the 13-operation alphabet (2 services) with every 0- and 1-fault placement, a seeded sample of "
@@ -133,8 +134,9 @@ def model_term(c, o):
         return "false"
     steps = []
     for s in o["steps"]:
-        steps.append("(%s, %s, %s, %s)" % (cN(s["out"]), nn([svc_view(n) for n in s["reg"]]),
-                                           clist([cstr(n["name"]) for n in s["reg"]]), nn(os_view(s))))
+        steps.append("(%s, %s, %s, %s, %s)" % (cN(s["out"]), nn([svc_view(n) for n in s["reg"]]),
+                                               clist([cstr(n["name"]) for n in s["reg"]]), nn(os_view(s)),
+                                               cbool(s.get("disk_same", True))))
     return "agree_hist %s %s %s %s" % (clist([cN(f) for f in c.get("faults", [])]),
                                        clist([c_op(x) for x in c["ops"]]), clist(steps), nn(log_view(o["log"])))
 
@@ -241,6 +243,16 @@ def oracle(c, o):
                 if j >= len(s["reg"]) or s["reg"][j]["status"] != 3 or s["reg"][j]["name"] != p["name"]:
                     v.append(("removed-came-back", "%s: %s was Removed and is now %s" % (
                         where, p["name"], s["reg"][j]["status"] if j < len(s["reg"]) else "gone")))
+        # add_node saves what it records: the file it leaves is the in-memory registry, also when the batch is cut
+        # short; and a new service never takes a name that is still installed from an earlier (lost) record
+        if kind == "add":
+            if not s.get("disk_same", True):
+                v.append(("add-unsaved-services", "%s (code %d): the registry file add_node left differs from its in-memory "
+                          "registry: recorded services would be lost to the next command" % (where, s["out"])))
+            for n in s["reg"][len(pre["reg"]):]:
+                if n["name"] in pre_installed:
+                    v.append(("add-reuses-installed-name", "%s: new service %s takes the name of a service definition that "
+                              "is already installed" % (where, n["name"])))
         # names and directories are never shared
         for fld in ("name", "data_dir", "log_dir", "number"):
             vals = [n[fld] for n in s["reg"]]
@@ -372,6 +384,18 @@ def directed():
     return [{"faults": [], "ops": ops} for ops in out]
 
 
+def batch_add_histories():
+    """batch adds whose later iterations make calls that can fail (no fixed rpc port / metrics server on),
+    followed by another add from the file: every single-fault placement is run on them"""
+    out = []
+    for first in ({"op": "add", "count": 2, "metrics": True}, {"op": "add", "count": 3},
+                  {"op": "add", "count": 3, "metrics": True, "node_port": [7000, 7002]},
+                  {"op": "add", "count": 2, "rpc_port": [7100, 7101], "metrics": True}):
+        out.append({"faults": [], "ops": [first, {"op": "add"}]})
+        out.append({"faults": [], "ops": [{"op": "add"}, first, {"op": "add", "count": 2}]})
+    return out
+
+
 def dead_process_histories():
     """a service recorded Running whose process has died (or whose probe is made to fail by a placement), then
     every operation that has to end with 'nothing running, nothing recorded'"""
@@ -464,7 +488,7 @@ def run(ctx):
         return
     rng = ctx.rng
     thorough = ctx.tier == "thorough"
-    base = [{"faults": [], "ops": ops} for ops in exhaustive(4 if thorough else 3)] + dead_process_histories()
+    base = [{"faults": [], "ops": ops} for ops in exhaustive(4 if thorough else 3)] + dead_process_histories() + batch_add_histories()
     nid = tag(base, nid)
     r.run(base)
     singles = placements(r, base, rng)
